@@ -44,3 +44,18 @@ func VerifSVGReaccept(n int) {
 }
 
 func verifSVGReacceptFinding(out []byte) {}
+
+// VerifSVGTruncated (C10): every prefix of a document template (position symbolic): no panic, terminates.
+func VerifSVGTruncated(n int) {
+	doc := []string{
+		"<svg xmlns=\"http://www.w3.org/2000/svg\"><defs/><defs><g/></defs><path d=\"M0 0L1 1\"/><?pi x?><!-- c --><![CDATA[x]]></svg>",
+		"<?xml version=\"1.0\"?><!DOCTYPE svg [<!ENTITY a \"b\">]><svg><style>a{}</style><text> x </text><metadata>m</metadata></svg>",
+	}[vChoice("doc", 2)]
+	k := vChoice("cut", len(doc)+1)
+	in := append(make([]byte, 0, k+1), doc[:k]...)
+	w := &vWriter{}
+	err := (&Minifier{}).Minify(minify.New(), w, &vReader{b: in}, nil)
+	vOutput("out", w.buf)
+	vOutputBool("err", err != nil)
+	vReach("end")
+}
